@@ -13,7 +13,7 @@
                             content hashes);
            [is_commit db c] find_commit succeeds on c. *)
 From GixV.Base Require Import Bytes BytesFacts Outcome.
-From GixV.C54 Require Import Model Spec ProofsBase ProofsFuel ProofsMain ProofsWk.
+From GixV.C54 Require Import Model Spec ProofsBase ProofsFuel ProofsMain ProofsWk ProofsAny.
 
 (* the walk terminates within fuel_of db = 2 + (number of tree-mode entries in db) queue pops, and
    nothing in it can panic: for ANY database (cycles, wrong kinds, undecodable objects) and ANY ids *)
@@ -53,6 +53,15 @@ Theorem reports_exactly_missing_each_once : forall db cs,
     NoDup (all_reports calls) /\
     forall o, In o (all_reports calls) <-> missing db o /\ exists c, In c cs /\ reach db c o.
 Proof. exact L_exact. Qed.
+
+(* with NO hypothesis at all (any database: wrong kinds, cycles, undecodable objects; any ids, readable
+   commits or not): nothing is ever reported twice by one instance, and every report of a call names an
+   object reachable from that call's commit which is unusable as reported — Blob: not in the database;
+   Tree: find_tree fails (missing, of another kind, or undecodable) *)
+Theorem any_db_reports_once_and_sound : forall db cs,
+  exists calls seenf, connectivity db cs = Ok (calls, seenf) /\
+    NoDup (all_reports calls) /\ Forall2 (call_sound db) cs calls.
+Proof. exact L_any. Qed.
 
 (* a commit id that cannot be read (missing / other kind / undecodable) makes check_commit return Err
    once; the id is then in the seen-set and a second check of it returns Ok(()) *)
